@@ -43,3 +43,21 @@ Proof.
   exists raw. split; [|exact HG].
   specialize (HT []). rewrite app_nil_r in HT. cbn [rtoks] in HT. now rewrite app_nil_r in HT.
 Qed.
+
+(** the whole chain: what the engine emits glues to the tokens of an
+    expression that EVALUATES to the value (cut to max_seq_len, dicts in the
+    requested order) *)
+From PP Require Import PyEval EvalRT.
+Theorem engine_output_evaluates :
+  forall (printable sp wd lb : N -> bool) (fuel ff : nat) (env : str -> option target),
+    env n_float = None -> env n_frozenset = None -> env n_set = None ->
+    forall (v : pyval) (indent width rw : Z) (n : Z) (sort : bool) (out : list sdoc),
+    (1 <= n)%Z -> wf_val v -> evaluable env v ->
+    sdocs_model printable sp wd lb fuel ff v indent width rw None n sort = Some out ->
+    exists e, Glue printable (rtoks (strip out) NNormal) (etoks e) /\ eval env e = Some (norm n sort v).
+Proof.
+  intros printable sp wd lb fuel ff env E1 E2 E3 v indent width rw n sort out Hn Hw He H.
+  exists (expr_of (mkE None n sort) v false). split.
+  - destruct (engine_output_tokens_all _ _ _ _ _ _ _ _ _ _ _ _ _ _ Hw H) as (raw & <- & G). exact G.
+  - now apply eval_expr_of.
+Qed.
